@@ -4,6 +4,9 @@
     two non-constant operands are ordered by their text
   * `not not x`  ->  `x`
   * `if not c: A else: B`  ->  `if c: B else: A`   (plain else only; elif chains keep their order)
+  * `if a: if b: X` without else branches  ->  `if a and b: X`
+  * an explaining variable: `x = <and / or / not / comparison>` immediately followed by `if x:` (or `if not x:`), with `x` used nowhere else in the function,
+    is read as `if <the expression>:` - the test is evaluated at the same point either way
 
 Line numbers are preserved; nothing here changes behaviour for the value kinds the repository compares.
 """
@@ -58,6 +61,13 @@ class Canon(ast.NodeTransformer):
 
     def visit_If(self, n: ast.If):
         self.generic_visit(n)
+        # `if a: if b: X` (no else on either) is `if a and b: X`
+        while not n.orelse and len(n.body) == 1 and isinstance(n.body[0], ast.If) and not n.body[0].orelse:
+            inner = n.body[0]
+            vals = (list(n.test.values) if isinstance(n.test, ast.BoolOp) and isinstance(n.test.op, ast.And) else [n.test]) + \
+                   (list(inner.test.values) if isinstance(inner.test, ast.BoolOp) and isinstance(inner.test.op, ast.And) else [inner.test])
+            n.test = ast.copy_location(ast.BoolOp(op=ast.And(), values=vals), n.test)
+            n.body = inner.body
         if isinstance(n.test, ast.UnaryOp) and isinstance(n.test.op, ast.Not) and n.orelse and \
                 not (len(n.orelse) == 1 and isinstance(n.orelse[0], ast.If)):
             n.test = n.test.operand
@@ -72,7 +82,53 @@ class Canon(ast.NodeTransformer):
         return n
 
 
+def _inline_explaining(fn) -> None:
+    uses = {}
+    for x in ast.walk(fn):
+        if isinstance(x, ast.Name):
+            uses[x.id] = uses.get(x.id, 0) + 1
+        elif isinstance(x, (ast.Global, ast.Nonlocal)):
+            for nm in x.names:
+                uses[nm] = uses.get(nm, 0) + 10
+    for nm in [a.arg for a in fn.args.args + fn.args.kwonlyargs + fn.args.posonlyargs]:
+        uses[nm] = uses.get(nm, 0) + 10
+
+    def lists(node):
+        for field in ("body", "orelse", "finalbody"):
+            v = getattr(node, field, None)
+            if isinstance(v, list) and v and isinstance(v[0], ast.stmt):
+                yield v
+        for h in getattr(node, "handlers", []) or []:
+            yield h.body
+
+    def rec(node):
+        for lst in lists(node):
+            i = 0
+            while i + 1 < len(lst):
+                a, b = lst[i], lst[i + 1]
+                if isinstance(a, ast.Assign) and len(a.targets) == 1 and isinstance(a.targets[0], ast.Name) and isinstance(a.value, (ast.BoolOp, ast.Compare, ast.UnaryOp)) \
+                        and isinstance(b, ast.If) and uses.get(a.targets[0].id) == 2 \
+                        and not (isinstance(a.value, ast.UnaryOp) and not isinstance(a.value.op, ast.Not)) \
+                        and not any(isinstance(x, ast.Call) and isinstance(x.func, ast.Name) and x.func.id in ("any", "all") for x in ast.walk(a.value)):
+                    # (a search result `x = not any(...)` stays a flag: it is the spelling of a flag-setting loop)
+                    t = b.test
+                    neg = isinstance(t, ast.UnaryOp) and isinstance(t.op, ast.Not)
+                    inner = t.operand if neg else t
+                    if isinstance(inner, ast.Name) and inner.id == a.targets[0].id:
+                        val = ast.copy_location(a.value, inner)
+                        b.test = ast.copy_location(ast.UnaryOp(op=ast.Not(), operand=val), t) if neg else val
+                        del lst[i]
+                        continue
+                i += 1
+            for st in lst:
+                if not isinstance(st, (ast.FunctionDef, ast.AsyncFunctionDef, ast.ClassDef)):
+                    rec(st)
+    rec(fn)
+
+
 def canonicalise(tree: ast.AST) -> ast.AST:
+    for fn in [x for x in ast.walk(tree) if isinstance(x, (ast.FunctionDef, ast.AsyncFunctionDef))]:
+        _inline_explaining(fn)
     return Canon().visit(tree)
 
 
